@@ -84,6 +84,9 @@ func BaseEnv(home string) []string {
 		env = append(env, "HOME="+os.Getenv("HOME"))
 	}
 	env = append(env, ExtraEnv...)
+	if d := os.Getenv("GOCOVERDIR"); d != "" { // scripts/coverage.sh only
+		env = append(env, "GOCOVERDIR="+d)
+	}
 	return env
 }
 
